@@ -43,6 +43,7 @@ type Summary struct {
 	Engines     map[string]int    `json:"engines"`
 	RunHashes   map[string]uint64 `json:"run_hashes,omitempty"` // determinism self-test
 	Ops         int               `json:"ops"`
+	KnownHits   map[string]int    `json:"known_hits"`
 }
 
 // Failure is a (shrunk) violating scenario.
@@ -118,6 +119,20 @@ func TestWorker(t *testing.T) {
 	if os.Getenv("VERIF_RUNHASHES") != "" {
 		sum.RunHashes = map[string]uint64{}
 	}
+	sum.KnownHits = map[string]int{}
+	knownSigs := map[string]bool{}
+	if kp := os.Getenv("VERIF_KNOWN"); kp != "" {
+		if b, err := os.ReadFile(kp); err == nil {
+			var kf struct {
+				Findings []struct{ Property, Sig string } `json:"findings"`
+			}
+			if json.Unmarshal(b, &kf) == nil {
+				for _, f := range kf.Findings {
+					knownSigs[f.Property+"|"+f.Sig] = true
+				}
+			}
+		}
+	}
 	start := time.Now()
 	sched := map[uint64]bool{}
 	nt := map[uint64]bool{}
@@ -166,6 +181,15 @@ func TestWorker(t *testing.T) {
 			b, _ := json.Marshal(sc)
 			sum.Samples = append(sum.Samples, b)
 		}
+		var fresh []Violation
+		for _, v := range out.Violations {
+			if knownSigs[v.Prop+"|"+v.Sig] {
+				sum.KnownHits[v.Prop+"|"+v.Sig]++
+			} else {
+				fresh = append(fresh, v)
+			}
+		}
+		out.Violations = fresh
 		if len(out.Violations) > 0 && len(sum.Failures) < maxFail {
 			seen := map[string]bool{}
 			for _, f := range sum.Failures {
